@@ -7,9 +7,8 @@ import PyAirtouch.Model.Part3Text
 (`dictInsert`); names are represented by their UTF-8 bytes.  `zone_number : int | Literal["ALL"]` is
 `Option Nat` with `none` for `"ALL"`.
 
-NOTE (finding): `ZoneNamesEncoder.size` counts ONE byte per zone in addition to the name bytes while
-`encode` writes TWO (zone number and name length).  The model follows the code: `size` and `encode`
-disagree by `zone_names.length` (see `Lemmas/At5FF13.lean`).
+`ZoneNamesEncoder.size` counts two bytes per zone (zone number and name length) plus the name bytes, as
+`encode` writes them (the earlier one-byte-per-zone defect has been repaired in the source).
 -/
 namespace PyAirtouch.Model.At5.FF13
 open PyAirtouch.Model PyAirtouch.Gen.At5.X1FFF13ZoneNames
@@ -32,15 +31,10 @@ deriving DecidableEq, Repr
 def sumNameLengths (start : Nat) (ns : List (Nat × Bytes)) : Nat :=
   ns.foldl (fun total p => total + p.2.length) start
 
-/-- `ZoneNamesEncoder.size` as written: `len(zone_names)` "length fields" plus the name bytes -/
+/-- `ZoneNamesEncoder.size`: `2 * len(zone_names)` bytes of zone numbers and length fields plus the name bytes -/
 def size : Msg → Nat
   | .request r => if r.zone_number.isNone then 0 else 1
-  | .message m => sumNameLengths m.zone_names.length m.zone_names
-
-/-- number of zones in a Zone Names Message (0 for requests): the amount by which `size` is short -/
-def zoneCount : Msg → Nat
-  | .request _ => 0
-  | .message m => m.zone_names.length
+  | .message m => sumNameLengths (2 * m.zone_names.length) m.zone_names
 
 /-- one zone: number, name length, name bytes -/
 def encEntry (p : Nat × Bytes) : Bytes := p.1 :: p.2.length :: p.2
@@ -105,6 +99,14 @@ def WF : Msg → Prop
   | .request r => ∀ n, r.zone_number = some n → n < 256
   | .message m => m.zone_names ≠ [] ∧ (dictKeys m.zone_names).Nodup ∧
       ∀ p ∈ m.zone_names, p.1 < 256 ∧ p.2.length ≤ 255 ∧ utf8Valid p.2 = true
+
+/-- run-time test of `WF` (see `wfBool_iff`) -/
+def wfBool : Msg → Bool
+  | .request r => match r.zone_number with
+    | none => true
+    | some n => decide (n < 256)
+  | .message m => !m.zone_names.isEmpty && nodupBool (dictKeys m.zone_names) &&
+      m.zone_names.all (fun p => decide (p.1 < 256) && decide (p.2.length ≤ 255) && utf8Valid p.2)
 
 /-- three zones: "Living", "Café" (2-byte é), "😀€" (4-byte and 3-byte characters), and an empty name -/
 example : WF (.message ⟨[(0, [0x4C, 0x69, 0x76, 0x69, 0x6E, 0x67]), (1, [0x43, 0x61, 0x66, 0xC3, 0xA9]),
